@@ -341,6 +341,12 @@ def fuzz_seeds(rng):
         ("Add, AddAssign", "#[allow(unused)] impl Add for X { #![allow(unused_variables)] #![doc = \"inner\"] type Output = X; fn add(self, rhs: X) -> X { self } }"),
         ("Sub", "#[deny(missing_docs)] #[allow(clippy::all)] #[warn(unused)] impl Sub<*const _> for X { type Output = X; fn sub(self, rhs: *const _) -> X { self } }"),
         ("Clone, Debug, PartialEq, bound(*const _: Copy, ..)", "#[allow(non_snake_case, dead_code)] #[expect(unused)] #[forbid(unsafe_code)] struct L<T> { #[deprecated] Fld: *const T, _m: u8 }"),
+        # several traits repeated in the attributes of one field / variant (whichever is reported, it has to be the same one every time)
+        ("Clone, Default, Debug, PartialEq", "struct Du { #[derive_ex(Clone, Default, Debug, PartialEq)] #[derive_ex(PartialEq, Debug, Default, Clone)] a: u8 }"),
+        ("Clone, Debug, Hash", "enum Dv { #[derive_ex(Hash, Debug(bound()), Clone)] #[derive_ex(Clone(bound(..)), Hash, Debug)] A(u8), B }"),
+        # predicates / bounds with binders of their own next to `Self` in an operator impl on a reference
+        ("Add, AddAssign", "impl<T> Add<&X<T>> for &X<T> where for<'b> Self: Tr<'b>, T: for<'c> Tq<'c, Self>, for<'d> &'d T: Tq<'d, Self> { type Output = X<T>; fn add(self, rhs: &X<T>) -> X<T> { todo!() } }"),
+        ("Sub", "impl<T: for<'b> Tq<'b, Self>> Sub<(&X<T>)> for ((&X<T>)) where for<'e, 'f> Self: Tr<'e> + Tr<'f> { type Output = X<T>; fn sub(self, rhs: (&X<T>)) -> X<T> { todo!() } }"),
         ("Clone, Default", "#[allow(deprecated)] #[deprecated = \"x\"] enum Le { #[deprecated] #[default] A, #[allow(unused)] B { #[deprecated(note = \"n\")] _x: u8 } }"),
     ]
     for attr, item in items:
